@@ -22,9 +22,16 @@ from dataclasses import dataclass, field
 from enum import StrEnum
 from typing import Annotated, ClassVar, Final, List, Literal, Optional, Union
 from mashumaro import DataClassDictMixin
-from mashumaro.config import BaseConfig
+from mashumaro.config import ADD_DIALECT_SUPPORT, BaseConfig
+from mashumaro.dialect import Dialect
 from mashumaro.types import Discriminator
 from mashumaro.codecs import BasicDecoder
+
+class D1(Dialect):
+    serialization_strategy = {}
+
+class D2(Dialect):
+    omit_none = True
 
 E = StrEnum("E", {f"T{i}": f"t{i}" for i in range(%d)})
 E.__module__ = __name__
@@ -117,6 +124,8 @@ def class_src(c: dict, style: str, kind: str) -> str:
             body.append(f"f{f}: int")
     if c["config"] is not None:
         body.append("class Config(BaseConfig):")
+        if c["config"].get("dialects"):
+            body.append("    code_generation_options = [ADD_DIALECT_SUPPORT]")
         body.append("    discriminator = " + disc_src(c["config"]))
     if not body:
         body.append("pass")
@@ -166,6 +175,9 @@ def gen_history(rng, stream: str = "main", max_ops: int = 40) -> Hist:
     # a variant validates its own `type` field: tagger tags differ from the attribute, and a non-field declaration
     # below a field declaration inherits the ancestor's annotation -> one declaration family per history
     use_tagger = kind == "field" and rng.random() < 0.35
+    # call-time dialects (class-level wiring only, unique tags only: with duplicate tags a registry hit on a class that
+    # lacks the dialect's method triggers a refill - compiled-method state is not part of the model)
+    use_dialects = unique and rng.random() < 0.3
     decls = ["classvar", "plain"] if (use_tagger or rng.random() < 0.35) else ["field", "literal", "final"]
     length = rng.randint(6, max_ops)
     classes: list[dict] = []
@@ -199,7 +211,7 @@ def gen_history(rng, stream: str = "main", max_ops: int = 40) -> Hist:
                 r = rng.random()
                 if r < 0.45:
                     config = {"field": kind == "field", "sub": True, "sup": rng.random() < 0.3,
-                              "tagger": use_tagger and rng.random() < 0.6}
+                              "tagger": use_tagger and rng.random() < 0.6, "dialects": use_dialects}
                 elif r < 0.7:
                     plain = True
         else:
@@ -207,7 +219,7 @@ def gen_history(rng, stream: str = "main", max_ops: int = 40) -> Hist:
             # a non-root class that declares its own class-level discriminator: a dispatcher below a dispatcher
             if not plain and stream != "kf" and rng.random() < 0.06:
                 config = {"field": kind == "field", "sub": True, "sup": rng.random() < 0.3,
-                          "tagger": use_tagger and rng.random() < 0.6}
+                          "tagger": use_tagger and rng.random() < 0.6, "dialects": use_dialects}
         own_tag = None
         ttags = None
         own_req: list[int] = []
@@ -239,7 +251,7 @@ def gen_history(rng, stream: str = "main", max_ops: int = 40) -> Hist:
 
     def pick_parents():
         p = rng.randrange(len(classes))
-        if rng.random() < 0.12:
+        if stream != "kf" and rng.random() < 0.12:      # the faithful model of the known-finding region is single-inheritance
             fam = [c["id"] for c in classes if root_of[c["id"]] == root_of[p] and c["id"] != p]
             if fam:
                 q = rng.choice(fam)
@@ -282,7 +294,14 @@ def gen_history(rng, stream: str = "main", max_ops: int = 40) -> Hist:
         if kind == "field":
             r = rng.random()
             pool = []
+            fam = {root_of[b] for b in s["bases"]}
+            elig = gen_eligible(s)
+            narrow = rng.random() < 0.7 and elig
             for c in classes:
+                if narrow and c["id"] not in elig:
+                    continue
+                if root_of[c["id"]] not in fam and rng.random() < 0.8:
+                    continue
                 if s["tagger"]:
                     pool.extend(c["ttags"] or [])
                 elif c["own_tag"] is not None:
@@ -303,7 +322,12 @@ def gen_history(rng, stream: str = "main", max_ops: int = 40) -> Hist:
             present: list[int] = []
         else:
             t = None
-            c = rng.choice(classes)
+            fam = {root_of[b] for b in s["bases"]}
+            famc = [c for c in classes if root_of[c["id"]] in fam]
+            elig = gen_eligible(s)
+            if elig and rng.random() < 0.6:
+                famc = [c for c in classes if c["id"] in elig]
+            c = rng.choice(famc if famc and rng.random() < 0.85 else classes)
             present = sorted(set(full_req(c["id"])))
             r = rng.random()
             if r < 0.2 and present:
@@ -315,8 +339,29 @@ def gen_history(rng, stream: str = "main", max_ops: int = 40) -> Hist:
         ops.append(("decode", si, t, present))
         wrap = {"config": None, "codec": None, "holder": "v", "holder_list": "vlist"}[s["wiring"]]
         call = f"{s['name']}.decode" if s["wiring"] == "codec" else f"{s['name']}.from_dict"
-        script.append({"op": "decode", "call": call, "wrap": wrap, "input": inp})
+        step = {"op": "decode", "call": call, "wrap": wrap, "input": inp}
+        if s["wiring"] == "config" and s.get("dialects"):
+            d = rng.choice([None, "D1", "D2"])
+            if d:
+                step["dialect"] = d
+        script.append(step)
         op_of_step.append(len(ops) - 1)
+
+    def gen_eligible(s):
+        """input shaping only (which tags/fields are worth sending); the oracle has its own notion"""
+        def anc(cid):
+            out = set()
+            for p in classes[cid]["parents"]:
+                out.add(p)
+                out |= anc(p)
+            return out
+        el = set()
+        for c in classes:
+            if s["sub"] and anc(c["id"]) & set(s["bases"]):
+                el.add(c["id"])
+            if s["sup"] and not s["config"] and c["id"] in s["bases"]:
+                el.add(c["id"])
+        return el
 
     def full_req(cid):
         out = list(classes[cid]["own_req"])
@@ -392,7 +437,7 @@ def do_decode(ns: dict, step: dict):
     else:
         arg = inp
     try:
-        r = fn(arg)
+        r = fn(arg, dialect=ns[step["dialect"]]) if step.get("dialect") else fn(arg)
     except Exception as e:  # noqa: BLE001 - classified below
         return (unwrap_exc(e),)
     if step["wrap"] == "v":
@@ -728,7 +773,7 @@ def check_site_ok(ctx: vlib.Ctx):
 
 THEOREMS = ["C12_registry_invariant", "C12_registry", "C12_missing_tag", "C12_history_independent",
             "C12_eligible_exact", "C12_nofield", "C12_trace_event", "C12_tag_unique_decidable",
-            "C12_nonunique_order_dependent", "C12_class_level_self_excluded"]
+            "C12_nonunique_order_dependent", "C12_class_level_self_excluded", "C12_nofield_inherited_unpacker_refuted"]
 
 
 def make_replay(h: Hist, k: int, what: str, exp: str, obs: str) -> dict:
@@ -816,7 +861,7 @@ def run(ctx: vlib.Ctx):
             o = observed[oi]
             late = n_def_after.get(op[1], 0) > 0
             ctx.count((h.kind, s["wiring"], s["sub"], s["sup"], s["tagger"], o[0] if o else "-", late, len(s["bases"])))
-            ctx.hist("wiring", s["wiring"])
+            ctx.hist("wiring", s["wiring"] + ("+dialects" if s.get("dialects") else ""))
             ctx.hist("outcome", o[0] if o and o[0] != "inst" else "instance")
             ctx.hist("decode_after_late_definition", str(late))
             first_decode_seen.add(op[1])
@@ -839,11 +884,32 @@ def run(ctx: vlib.Ctx):
         observed, flags, fails = run_history(h)
         account(h, observed, fails)
 
-    # ---- region of the known finding (kept out of the correspondence by (X2))
+    # ---- region of the known finding (kept out of the main correspondence by (X2)): compared with the faithful
+    #      model DiscrKF.krun (inherited compiled unpackers), oracle failures are classified by signature
+    kcases = []
+    kres = []
     for _ in range(ctx.budget(60, 500)):
         h = gen_history(ctx.rng, stream="kf")
         observed, flags, fails = run_history(h)
         account(h, observed, fails)
+        kres.append((h, observed))
+        kcases.append("(" + vlib.coq_list([coq_site(s) for s in h.sites]) + ",\n    " + vlib.coq_list([coq_op(o) for o in h.ops])
+                      + ",\n    " + vlib.coq_list([coq_outcome(o) for o in observed]) + ")")
+    bad, log = vlib.coq_bad_idx("c12_kf", "Discr DiscrKF", "", "Close Scope Z_scope.\nOpen Scope nat_scope.\n", kcases, "kcase_ok",
+                                "list site * list op * list (option outcome)", shard=250, needs=["theories/DiscrKF.vo"])
+    if bad is None:
+        ctx.correspondence("kf-model-vs-impl", len(kcases), -1, log)
+        ctx.not_shown("correspondence kf-model-vs-impl", log)
+    else:
+        detail = ""
+        if bad:
+            h, observed = kres[bad[0]]
+            detail = json.dumps({"case": bad[0], "sites": [coq_site(s) for s in h.sites], "ops": [coq_op(o) for o in h.ops],
+                                 "observed": [fmt(o) for o in observed]})
+            # the finding's faithful model no longer describes the code (repaired, or changed otherwise): not a violation by
+            # itself (DESIGN 2.4 'model-stale'); the oracle above decides whether the property holds there
+            ctx.notes.append("model-stale: DiscrKF (finding C12/nofield-inherited-unpacker) disagrees with the implementation: " + detail[:600])
+        ctx.correspondence("kf-model-vs-impl", len(kcases), len(bad), detail)
 
     # ---- remark: without uniqueness the answer depends on the history (not a violation: the property is silent)
     h = fixed_histories()[3]
